@@ -14,7 +14,9 @@ from harness.props import c01, c06
 
 PID = "C12"
 HEADER = ("From Coq Require Import QArith ZArith List. Import ListNotations.\n"
-          "From TT Require Import Num NumI NumD Tree M_like M_data M_like_data M_height M_site.\n")
+          "From TT Require Import Num NumI NumD Tree M_like M_data M_like_data M_height M_site "
+          "M_coalescent M_bdsk M_gmrf.\n"
+          "Definition L2PI_D : dual := (ln2pi_of NumI (I.pi prec), I.fromZ prec 0).\n")
 
 
 # ----------------------------------------------------------------------------- densities
@@ -265,13 +267,153 @@ def case_site_rates(rng):
     return dict(kind="site_rates", desc=dict(K=K, shape=shape, pinv=pinv, k=k), value=float(r[..., k].detach()), grad=g, expr=expr)
 
 
+def _dq(v, is_var):
+    return f"({'dvar' if is_var else 'dconst'} {C.qlit(v)})"
+
+
+def case_coalescent(rng):
+    """d log p / d theta_k or d / d (a coalescent time) for the constant, exponential, skyride and skygrid
+    coalescents: autograd of Distribution.log_prob vs the proved dual-number enclosure."""
+    torch = impl.load()
+    from torchtree.evolution import coalescent as K
+    n = rng.randint(3, 7)
+    grid16 = lambda lo, hi: round(rng.uniform(lo, hi) * 64) / 64
+    tips = sorted({0.0} | {grid16(0.0, 2.0) for _ in range(n - 1)}) if rng.random() < 0.7 else [0.0] * n
+    while len(tips) < n:
+        tips.append(grid16(0.0, 2.0))
+        tips = sorted(set(tips))
+    tips = tips[:n]
+    # the j-th coalescence after the (j+1)-th sampling: always a valid genealogy; all times distinct
+    coals, used = [], set(tips)
+    prev = 0.0
+    for j in range(n - 1):
+        lo = max(prev, sorted(tips)[j + 1])
+        c = lo + rng.uniform(0.05, 0.9)
+        while c in used:
+            c += 0.013
+        used.add(c)
+        coals.append(c)
+        prev = c
+    order = list(range(n - 1))
+    rng.shuffle(order)                      # the order in which the internal heights are supplied is arbitrary
+    coals_s = [coals[i] for i in order]
+    model = rng.choice(["constant", "exponential", "skyride", "skygrid"])
+    if model == "skyride":
+        theta = [math.exp(rng.uniform(-1, 2)) for _ in range(n - 1)]
+    elif model == "skygrid":
+        k = rng.randint(2, 5)
+        theta = [math.exp(rng.uniform(-1, 2)) for _ in range(k)]
+        top = max(coals) * rng.choice([0.6, 1.3])
+        grid = [top * (i + 1) / (k - 1) for i in range(k - 1)]
+        grid = [g + 1e-3 * (i + 1) if g in used else g for i, g in enumerate(grid)]
+    else:
+        theta = [math.exp(rng.uniform(-1, 2))]
+    growth = rng.choice([-1, 1]) * rng.uniform(0.05, 0.8)
+    wrt = rng.choice(["theta", "time"] + (["growth"] if model == "exponential" else []))
+    kk = rng.randrange(len(theta)) if wrt == "theta" else (rng.randrange(n - 1) if wrt == "time" else 0)
+    th = torch.tensor(theta, requires_grad=True)
+    gr = torch.tensor([growth], requires_grad=True)
+    nh = torch.tensor(tips + coals_s, requires_grad=True)
+    if model == "constant":
+        d = K.ConstantCoalescent(th)
+    elif model == "exponential":
+        d = K.ExponentialCoalescent(th, gr)
+    elif model == "skyride":
+        d = K.PiecewiseConstantCoalescent(th)
+    else:
+        d = K.PiecewiseConstantCoalescentGrid(th, torch.tensor(grid))
+    v = d.log_prob(nh).sum()
+    v.backward()
+    g = float({"theta": th.grad, "time": nh.grad[n:], "growth": gr.grad}[wrt].reshape(-1)[kk])
+    ev = [f"mkEv {C.qlit(t)} (dconst {C.qlit(t)}) Tip" for t in tips]
+    ev += [f"mkEv {C.qlit(c)} {_dq(c, wrt == 'time' and i == kk)} Coal" for i, c in enumerate(coals_s)]
+    if model == "skygrid":
+        ev += [f"mkEv {C.qlit(x)} (dconst {C.qlit(x)}) Grid" for x in grid]
+    evs = "[" + "; ".join(ev) + "]"
+    TH = C.coq_list(range(len(theta)), lambda i: _dq(theta[i], wrt == "theta" and i == kk))
+    if model == "constant":
+        e = f"constant_lp NumD {_dq(theta[0], wrt == 'theta')} {evs}"
+    elif model == "exponential":
+        e = f"exponential_lp NumD {_dq(theta[0], wrt == 'theta')} {C.qlit(growth)} {_dq(growth, wrt == 'growth')} {evs}"
+    elif model == "skyride":
+        e = f"skyride_lp NumD {TH} {evs}"
+    else:
+        e = f"skygrid_lp NumD {TH} {evs}"
+    return dict(kind="coalescent:" + model, desc=dict(model=model, n=n, tips=tips, coalescent_times=coals_s, theta=theta,
+                                                        growth=growth if model == "exponential" else None,
+                                                        wrt=wrt, coordinate=kk),
+                value=float(v.detach()), grad=g, expr=f"show_d ({e})")
+
+
+def case_bdsk(rng):
+    """d log p / d R_i, delta_i or s_i of a birth-death skyline with >= 2 epochs, built from JSON."""
+    torch = impl.load()
+    from harness.props import c09
+    from torchtree.evolution.bdsk import BDSKModel
+    for _ in range(400):
+        c = c09.gen_case(rng, rng.choice([0, 1, 2, 10, 14]), "quick")
+        if c["api"] == "BDSK" and c["m"] >= 2 and c["r"] is None and c["times_mode"] == "absolute" \
+                and not c09.hazards(c, set()):
+            break
+    else:
+        return None
+    dic = {}
+    mod = BDSKModel.from_json(c09.bdsk_json(c), dic)
+    which = rng.choice(["R", "delta", "s"])
+    i = rng.randrange(c["m"])
+    for k in ("R", "delta", "s"):
+        dic[k].requires_grad = True
+        dic[k].tensor = dic[k].tensor
+    v = mod().sum()
+    v.backward()
+    g = float(dic[which].tensor.grad.reshape(-1)[i])
+    et = c09.eff_times(c)
+    rho = C.qlist(c["rho"] if c["rho"] is not None else [0.0])
+    L = lambda name: C.coq_list(range(c["m"]), lambda j: _dq(c[name][j], name == which and j == i))
+    sv = "true" if c["survival"] else "false"
+    e = (f"bdsk_model_log_prob NumD {sv} None {L('R')} {L('delta')} {L('s')} {rho} {C.qlist(et)} "
+         f"{C.qlist(c['tips'])} {C.qlist(c['ints'])}")
+    return dict(kind="bdsk", desc=dict(epochs=c["m"], n=len(c["tips"]), wrt=which, coordinate=i, R=c["R"], delta=c["delta"],
+                                        s=c["s"], rho=c["rho"], times=et, survival=c["survival"]),
+                value=float(v.detach()), grad=g, expr=f"show_d ({e})")
+
+
+def case_gmrf(rng):
+    """d GMRF() / d field_i, d precision or d weight_i (plain and weighted fields), built from JSON."""
+    torch = impl.load()
+    from torchtree.distributions.gmrf import GMRF
+    n = rng.randint(2, 9)
+    x = [rng.uniform(-2, 2) for _ in range(n)]
+    tau = math.exp(rng.uniform(-2, 2))
+    weighted = rng.random() < 0.5
+    w = [math.exp(rng.uniform(-1, 1)) for _ in range(n - 1)]
+    d = {"id": "gmrf", "type": "GMRF", "x": impl.param_json("field", x), "precision": impl.param_json("precision", [tau])}
+    if weighted:
+        d["weights"] = impl.param_json("weights", w)
+    dic = {}
+    g = GMRF.from_json(d, dic)
+    wrt = rng.choice(["field", "precision"] + (["weights"] if weighted else []))
+    i = rng.randrange({"field": n, "precision": 1, "weights": n - 1}[wrt])
+    dic[wrt].requires_grad = True
+    dic[wrt].tensor = dic[wrt].tensor
+    v = g().sum()
+    v.backward()
+    gr = float(dic[wrt].tensor.grad.reshape(-1)[i])
+    X = C.coq_list(range(n), lambda j: _dq(x[j], wrt == "field" and j == i))
+    V = ("(Weighted " + C.coq_list(range(n - 1), lambda j: _dq(w[j], wrt == "weights" and j == i)) + ")") if weighted else "Plain"
+    e = f"gmrf NumD L2PI_D {V} {X} {_dq(tau, wrt == 'precision')}"
+    return dict(kind="gmrf", desc=dict(n=n, weighted=weighted, wrt=wrt, coordinate=i, field=x, precision=tau),
+                value=float(v.detach()), grad=gr, expr=f"show_d ({e})")
+
+
 def run(tier, seed, replay=None):
     torch = impl.load()
     rep = C.Report(PID, tier, seed)
     rep.trusted = C.COMMON_TRUSTED + [
         "base/NumD.v + ParamD.v: verified forward-mode AD instance (kernel-checked, Coquelicot + Interval)",
-        "models M_like.v, M_height.v, M_site.v (tied by the value correspondences of C01/C06/C05 and by the gradient "
-        "correspondence here); coalescent / birth-death / GMRF gradients: implementation-side check only in this file",
+        "models M_like.v, M_height.v, M_site.v, M_coalescent.v, M_bdsk.v, M_gmrf.v (tied by the value correspondences of "
+        "C01/C06/C05/C08/C09/C20 and by the gradient correspondence here); piecewise-linear / piecewise-exponential "
+        "coalescent, CTMC scale and torch priors: implementation-side check only",
         "oracle: dP/dt of the transition matrices (autograd of p_t, validated by central differences)",
         "PyTorch autograd is NOT verified: that is what the correspondence and the finite-difference comparison test",
         "finite differences (Richardson, two step sizes) with tolerance max(1e-5 relative, 50 x the step-halving "
@@ -334,14 +476,14 @@ def run(tier, seed, replay=None):
 
     # correspondence with proved derivative enclosures
     t0 = time.time()
-    gens = [case_height_jacobian, case_loglik_branch, case_site_rates]
-    ncorr = 36 if tier == "quick" else 300
+    gens = [case_height_jacobian, case_loglik_branch, case_site_rates, case_coalescent, case_bdsk, case_gmrf]
+    ncorr = 72 if tier == "quick" else 600
     cases = []
     for i in range(ncorr):
         try:
-            c = gens[i % 3](rng)
+            c = gens[i % len(gens)](rng)
         except Exception as e:
-            k = f"C12:correspondence-case-raises:{gens[i % 3].__name__}:{type(e).__name__}"
+            k = f"C12:correspondence-case-raises:{gens[i % len(gens)].__name__}:{type(e).__name__}"
             rep.violation(k, f"{type(e).__name__}: {str(e)[:200]}", dict(), True)
             continue
         if c is not None:
@@ -375,7 +517,9 @@ def run(tier, seed, replay=None):
                 "prior; the node-height Jacobian term; the joint): for every density and every coordinate (<= 3 sampled per "
                 "large parameter) autograd vs Richardson finite differences; (2) autograd vs proved dual-number enclosures for "
                 "the height log-Jacobian w.r.t. ratios/root height, the tree log-likelihood w.r.t. a branch length, Weibull "
-                "rates w.r.t. the shape; non-trivial = non-zero derivative; distinct = distinct (scenario,density,parameter,coordinate)")
+                "rates w.r.t. the shape, the constant / exponential / skyride / skygrid coalescents w.r.t. a population size, "
+                "the growth rate or a coalescent time, the birth-death skyline (>= 2 epochs) w.r.t. R_i / delta_i / s_i, "
+                "the (weighted) GMRF w.r.t. field, precision or a weight; non-trivial = non-zero derivative; distinct = distinct (scenario,density,parameter,coordinate)")
     rep.extra = dict(input_distribution=dist, model_undefined=undefined, coordinates_checked=n_coord,
                      traces_validated_against_impl=len(cases))
     return rep.finish()
